@@ -7,7 +7,32 @@
 //   names                 names of the variables and biases the module holds
 //   oncallback w1\x1f..   queue a script command that is run inside the scripted-forces callback of every later step
 //   writefile F text      write text ('\x1e' = newline) to file F
+//   gradgroups <cv>       what colvar::collect_cvc_gradients() is about to attribute: for every active component, every atom group
+//                         (then its fitting group) the pairs (atom id, contribution) in LISTING order, and the arrays
+//                         colvar::atom_ids / colvar::atomic_gradients as they are, all in hex floats
+#include <cstdio>
+#include <cstdlib>
+#include <cstring>
+#include <cmath>
+#include <iostream>
+#include <fstream>
+#include <sstream>
+#include <string>
+#include <vector>
+#include <map>
+#include <algorithm>
+#include <functional>
+#include <thread>
+#include <mutex>
+#include <list>
+#include <set>
+#include <memory>
+#include <iomanip>
+#include <unordered_map>
+#define private public
+#define protected public
 #include "vsim.h"
+#include "colvarcomp.h"
 #include "colvarscript_commands.h"
 
 struct c20_session : public vsim_session {
@@ -94,6 +119,47 @@ struct c20_session : public vsim_session {
         }
         return COLVARS_OK;
       };
+      return true;
+    }
+    if (cmd == "gradgroups") {
+      colvar *cv = cvm::colvar_by_name(a[0]);
+      if (!cv) { o << "GRADGROUPS " << a[0] << " notfound\n"; return true; }
+      o << "GRADGROUPS " << a[0] << " ids";
+      for (int id : cv->atom_ids) o << " " << id;
+      o << " grads";
+      for (auto const &g : cv->atomic_gradients) o << " " << vs_hex(g.x) << " " << vs_hex(g.y) << " " << vs_hex(g.z);
+      o << " groups";
+      for (size_t i = 0; i < cv->cvcs.size(); i++) {
+        colvar::cvc *c = cv->cvcs[i].get();
+        if (!c->is_enabled()) continue;
+        // the same expressions as cvc::collect_gradients; what is under test is the attribution to ids and the accumulation
+        cvm::real coeff = c->sup_coeff * cvm::real(c->sup_np) * cvm::integer_power(c->value().real_value, c->sup_np - 1);
+        for (size_t j = 0; j < c->atom_groups.size(); j++) {
+          cvm::atom_group &ag = *(c->atom_groups[j]);
+          o << " |";
+          if (ag.is_enabled(colvardeps::f_ag_rotate)) {
+            const auto rot_inv = ag.rot.inverse().matrix();
+            for (size_t k = 0; k < ag.size(); k++) {
+              cvm::rvector v = coeff * (rot_inv * ag[k].grad);
+              o << " " << ag[k].id << ":" << vs_hex(v.x) << ":" << vs_hex(v.y) << ":" << vs_hex(v.z);
+            }
+          } else {
+            for (size_t k = 0; k < ag.size(); k++) {
+              cvm::rvector v = coeff * ag[k].grad;
+              o << " " << ag[k].id << ":" << vs_hex(v.x) << ":" << vs_hex(v.y) << ":" << vs_hex(v.z);
+            }
+          }
+          if (ag.is_enabled(colvardeps::f_ag_fitting_group) && ag.is_enabled(colvardeps::f_ag_fit_gradients)) {
+            cvm::atom_group const &fg = *(ag.fitting_group);
+            o << " |";
+            for (size_t k = 0; k < fg.size(); k++) {
+              cvm::rvector v = coeff * fg.fit_gradients[k];
+              o << " " << fg[k].id << ":" << vs_hex(v.x) << ":" << vs_hex(v.y) << ":" << vs_hex(v.z);
+            }
+          }
+        }
+      }
+      o << "\n";
       return true;
     }
     if (cmd == "writefile") {
